@@ -34,10 +34,15 @@ def run(chk):
     rows = json.loads(p.stdout)
     chk.require(len(rows) > 150 and any(r["struct"] == "GdsLibrary" for r in rows) and any(r["struct"] == "LefMacro" for r in rows), "field table incomplete")
     cfg = os.path.join(W, "serde.cfg")
-    open(cfg, "w").write("SPECIFICATION Spec\nINVARIANTS PredsKnown Emit\nCHECK_DEADLOCK FALSE\n")
+    open(cfg, "w").write("SPECIFICATION Spec\nINVARIANTS Emit\nCHECK_DEADLOCK FALSE\n")
     r = tlc.check(os.path.join(D, "SerdeModel.tla"), cfg, workers=4, timeout=600, env={"SERDE_TABLE": table})
     chk.add_tlc(f"SerdeModel over {len(rows)} extracted fields", r)
     chk.tlc_must_pass("SerdeModel", r)
+    unknown = sorted({f"{c['struct']}.{c['field']} ({c['pred']})" for c in r.cases if c["unknown_pred"]})
+    chk.cov["fields_with_unmodelled_skip_predicate"] = unknown
+    if unknown:
+        # the model cannot say which values such a predicate drops: those fields are decided by the value replay below
+        chk.note("skip predicates the attribute model does not know (decided by value replay only): " + ", ".join(unknown[:8]))
     lossy_model = {(c["struct"], c["field"]): c for c in r.cases if not c["lossless"]}
     chk.cov["model_lossy_fields"] = [f"{k[0]}.{k[1]} ({v['class']} -> {v['back']})" for k, v in lossy_model.items()]
     for (st, fld), c in lossy_model.items():
@@ -76,7 +81,10 @@ def run(chk):
         nd += q["doubles_checked"]; ns += q["strings_checked"]
         chk.cov["evaluations"] += q["doubles_checked"] + q["strings_checked"]
         for pr in q["problems"]:
-            if pr["kind"] == "double":
+            if pr["kind"] == "neutral":
+                path = (pr["r"].get("diff") or ["?"])[0]
+                chk.violation(f"neutral-value-lost:{pr['fmt']}:{L.norm_path(path)}", "SerializationFormat::" + pr["fmt"], {"format": pr["fmt"], "values": pr["value"]}, pr["r"])
+            elif pr["kind"] == "double":
                 path = (pr["r"].get("diff") or ["?"])[0]
                 chk.violation(f"double-not-bit-exact:{pr['fmt']}", "SerializationFormat::" + pr["fmt"], {"format": pr["fmt"], "field": L.norm_path(path)}, pr["r"])
             else:
